@@ -254,7 +254,30 @@ NOT_YET = {}
 ALL = [f"C{n:02d}" for n in range(1, 21)]
 
 
+# what the later rounds of seeded changes added to each check (DESIGN 0.5), appended to the level text
+ADDED = {
+    "C01": " Sums over columns with empty cells are used as values; conditions may carry nocontrib.",
+    "C02": " Every third terminal state is also replayed as a one-member named-paths group with collect_paths and collect_by_line.",
+    "C03": " Assignments from count(<something>), counters with increments of 0 or read from a cell, stacks popped while they hold equal values.",
+    "C04": " Verdict-report runs: csvpaths whose only variables are line-by-line reports of valid()/failed() around conditional fail(); error runs with fail(), skip() and error components.",
+    "C05": " Error runs inside the run machine (Eval!Flush = ErrorPolicy!HandleN) with control functions, incl. errors raised under last() on a file that ends in a blank record.",
+    "C07": " collect() (the function) of a header a matched line need not have: the hand-over fails in every method at the same call.",
+    "C08": " Each member's collected data.csv in every collecting way equals its standalone lines.",
+    "C09": " Groups print to the default and to named printouts (compared section by section); early-failing members followed by erroring members.",
+    "C10": " Histories with fast-forward (data-less) runs and with abandoned next_* generators; references asked by the instance that ran, one that ran earlier and one that never ran.",
+    "C12": " A csvpath without identity may occur more than once in a list; member texts contain empty lines.",
+    "C15": " Every mode case is driven by collect() and by fast_forward(); SameRun 'silent': a bare CsvPath with and without print-mode: no-default is the same run, and silent.",
+    "C17": " Literal twins (csvpaths that differ only inside a literal) parsed in sequence in one process; layout runs compare the hash-named variables too; an arbitrary-name qualifier keeps its case.",
+    "C18": " Abort points include line 0; aborts also under the shipped default policy (raise, collect, stop, fail, print); members that finished before the abort.",
+    "C19": " Every process of a history has its own string-hash seed; jobs with generated variable names; files of one physical line.",
+    "C20": " A member of the referenced group reads the group's variables mid-run; the last of several runs may collect nothing (a replay by reference then has nothing to read).",
+}
+
+
 def main():
+    for pid, extra in ADDED.items():
+        if pid in CLAIMED:
+            CLAIMED[pid]["text"] = CLAIMED[pid]["text"] + extra
     checks = []
     for pid in ALL:
         if pid not in CLAIMED:
